@@ -250,7 +250,7 @@ class Interp(CallMixin):
         if isinstance(a, Obj) and isinstance(b, Obj):
             if a is b:
                 return True
-            if a.cls == b.cls and self.is_attrs(a.cls):
+            if a.cls == b.cls and (self.is_attrs(a.cls) or (a.cls in self.model.classes and "typing.NamedTuple" in self.model.mro(a.cls))):
                 return set(a.fields) == set(b.fields) and all(self.eq(a.fields[k], b.fields[k]) for k in a.fields)
             if a.cls == b.cls and a.cls in ("lark.Tree", "lark.Token"):
                 keys = ("data", "children") if a.cls == "lark.Tree" else ("type", "value")
@@ -489,11 +489,7 @@ class Interp(CallMixin):
                     frame.vars[local] = self.ext_value(a.name)
             return
         if isinstance(st, ast.With):
-            for item in st.items:
-                v = self.eval(item.context_expr, frame)
-                if item.optional_vars is not None:
-                    self.assign(item.optional_vars, v if isinstance(v, Opaque) else Opaque("with"), frame)
-            self.exec_block(st.body, frame)
+            self.exec_with(st, 0, frame)
             return
         if isinstance(st, ast.Match):
             subject = self.eval(st.subject, frame)
@@ -522,6 +518,45 @@ class Interp(CallMixin):
                     self.unsupported(st, frame)
             return
         self.unsupported(st, frame)
+
+    def exec_with(self, st: ast.With, i: int, frame: Frame) -> None:
+        if i == len(st.items):
+            self.exec_block(st.body, frame)
+            return
+        item = st.items[i]
+        mgr = self.eval(item.context_expr, frame)
+        cls = self.model.classes.get(mgr.cls) if isinstance(mgr, Obj) else None
+        enter = self.model.find_method(cls, "__enter__") if cls is not None else None
+        exit_ = self.model.find_method(cls, "__exit__") if cls is not None else None
+        if enter is None or exit_ is None:
+            if isinstance(mgr, Obj) and mgr.cls == "contextlib.suppress":
+                try:
+                    self.exec_with(st, i + 1, frame)
+                except PyRaise as err:
+                    if not any(isinstance(c, ClassVal) and self.is_subclass(err.exc.cls, c.name) for c in mgr.fields["classes"]):
+                        raise
+                return
+            # an external context manager (open(), locks ...): entered value is opaque, exceptions pass through
+            if item.optional_vars is not None:
+                self.assign(item.optional_vars, mgr if isinstance(mgr, Opaque) else Opaque("with"), frame)
+            self.exec_with(st, i + 1, frame)
+            return
+        entered = self.call(FuncVal(fn=enter, self_obj=mgr, module=enter.module), [], {}, st, frame)
+        if item.optional_vars is not None:
+            self.assign(item.optional_vars, entered, frame)
+        try:
+            self.exec_with(st, i + 1, frame)
+        except PyRaise as err:
+            saved = frame.cur_exc
+            suppress = self.call(FuncVal(fn=exit_, self_obj=mgr, module=exit_.module), [ClassVal(err.exc.cls), err.exc, Opaque("traceback")], {}, st, frame)
+            frame.cur_exc = saved
+            if not self.truth(suppress):
+                raise
+            return
+        except (_Return, _Break, _Continue):
+            self.call(FuncVal(fn=exit_, self_obj=mgr, module=exit_.module), [None, None, None], {}, st, frame)
+            raise
+        self.call(FuncVal(fn=exit_, self_obj=mgr, module=exit_.module), [None, None, None], {}, st, frame)
 
     def match_pattern(self, pat: ast.pattern, subject: Any, frame: Frame) -> bool:
         if isinstance(pat, ast.MatchValue):
@@ -677,6 +712,8 @@ class Interp(CallMixin):
             return list(v)
         if isinstance(v, ClassVal) and v.name in self.model.classes and self.model.is_enum(self.model.cls(v.name)):
             return self.enum_all(v.name)
+        if isinstance(v, Obj) and v.cls in self.model.classes and "typing.NamedTuple" in self.model.mro(v.cls):
+            return [v.fields[k] for k in self.model.attrs_fields(self.model.classes[v.cls])]
         raise Unsupported(f"iteration over {v!r} at line {getattr(node, 'lineno', '?')}")
 
     # ------------------------------------------------------------------ expressions
@@ -957,6 +994,8 @@ class Interp(CallMixin):
             if key not in self.attr_memo:
                 self.attr_memo[key] = Opaque(f"{cont.label}[{idx!r}]")
             return self.attr_memo[key]
+        if isinstance(cont, Obj) and cont.cls in self.model.classes and "typing.NamedTuple" in self.model.mro(cont.cls) and isinstance(idx, int):
+            return self.iterate(cont, e, frame)[idx]
         if isinstance(cont, Obj):
             cls = self.model.classes.get(cont.cls)
             m = self.model.find_method(cls, "__getitem__") if cls is not None else None
